@@ -179,7 +179,7 @@ func (ex *Exec) call(f *Frame, st *State, x *ssa.Call, b *ssa.BasicBlock, i int,
 				// this call requires A to be false here
 				if parts := splitOp(c.Src, "==>"); len(parts) == 2 && strings.Contains(err.Error(), "unknown identifier") {
 					if a, err2 := ec.formula(parts[0]); err2 == nil {
-						ex.oblige(f, st, "assert", fmt.Sprintf("%s#assert:%s#%s#%s", ex.name, c.pat, ordName, lbl), mkNot(a), x.Pos(),
+						ex.oblige(f, st, "assert", fmt.Sprintf("%s#assert:%s#%s#%s#nolocal", ex.name, c.pat, ordName, lbl), mkNot(a), x.Pos(),
 							c.Src+"   [the consequent's values do not exist at this call: its antecedent must be false here]")
 					}
 				}
